@@ -771,17 +771,9 @@ func c07WalkErr(rc *RuleCtx) {
 								}
 							}
 						}
-					case *ssa.Call:
-						// pi.IsLast() on the iterator of this walk: true only once the walk advanced to the last part
-						// (lemma: an absolute path is longer than its volume name, so a fresh iterator is not at its
-						// last part; the nil directory is returned before the first Next())
-						if fn := calleeFunc(x); fn != nil && fn.Name() == "IsLast" && truth {
-							if r := callRecv(x); r != nil {
-								if e, ok := strip(resolve1(r)).(*ssa.Extract); ok && e.Tuple == ssa.Value(w) && e.Index == 2 {
-									return true
-								}
-							}
-						}
+					// pi.IsLast() is no evidence: for a path equal to the name of a volume that does not exist
+					// (\\host\share) the walk returns a nil directory and the fresh iterator has no part left,
+					// so IsLast() is true.
 					case *ssa.Extract:
 						// comma-ok type assertion on the child
 						if ta, ok := x.Tuple.(*ssa.TypeAssert); ok && truth && x.Index == 1 && ce != nil && strip(resolve1(ta.X)) == ssa.Value(ce) {
